@@ -23,7 +23,37 @@ def nontrivial(src, out):
     return "stroke" in src
 
 
-P = RenderProp(features, "color", n_quick=100, n_thorough=600, nontrivial=nontrivial)
+import math
+
+
+def special(rng):
+    """(a) hairline strokes under a magnifying ancestor; (b) sharp miter corners with wide strokes, sampled along the
+    outward bisector where SVG bevels or not depending on the miter limit"""
+    k = rng.random()
+    if k < 0.08:
+        w = rng.choice(["0.05", "0.08", "0.02"])
+        sc = rng.choice([20, 30])
+        x0 = rng.uniform(0.5, 2.0)
+        src = ('<svg xmlns="http://www.w3.org/2000/svg" viewBox="0 0 100 100"><g transform="scale(%d)"><path d="M%.2f,0.5 L%.2f,4" fill="none" stroke="red" stroke-width="%s"/>'
+               '<rect x="3" y="1" width="1" height="2" fill="blue" stroke="black" stroke-width="%s"/></g></svg>' % (sc, x0, x0, w, w))
+        pts = [(x0 * sc, 20 + i * 10) for i in range(5)] + [(3 * sc, 40), (4 * sc, 50)]
+        return src, pts
+    if k < 0.2:
+        ang = math.radians(rng.choice([25, 35, 40, 50]))
+        w = rng.choice([6, 10, 14])
+        ml = rng.choice([1.5, 2, 3, 4])
+        vx, vy, L = 50.0, 30.0, 45.0
+        a = (vx - L * math.sin(ang / 2), vy + L * math.cos(ang / 2))
+        b = (vx + L * math.sin(ang / 2), vy + L * math.cos(ang / 2))
+        src = ('<svg xmlns="http://www.w3.org/2000/svg" viewBox="0 0 100 100"><path d="M%.3f,%.3f L%.1f,%.1f L%.3f,%.3f" fill="none" stroke="blue" stroke-width="%d" '
+               'stroke-linejoin="miter" stroke-miterlimit="%s"/></svg>' % (a[0], a[1], vx, vy, b[0], b[1], w, ml))
+        # the tip region lies above the vertex (towards smaller y) along the bisector
+        pts = [(vx, vy - d) for d in (w * 0.55, w * 0.8, w * 1.1, w * 1.4, w * 1.8, w * 2.3)]
+        return src, pts
+    return None
+
+
+P = RenderProp(features, "color", n_quick=100, n_thorough=600, nontrivial=nontrivial, special=special)
 correspondence = P.correspondence
 search = P.search
 replay = P.replay
